@@ -14,8 +14,8 @@ LAYOUT = []
 EXPLANATION = (
     'C20: the real s3transfer.crt Python layer (CRTTransferManager, CRTTransferCoordinator, S3ClientArgsCreator, '
     'RenameTempFileHandler, AfterDoneHandler) runs against a stub awscrt package (awscrt is not installed) whose '
-    'S3Client.make_request records the request and hands the harness its on_done / on_progress.  A sequence of 3 (quick) '
-    '/ 4 (thorough) submissions with SYMBOLIC kinds (upload from path, download to a path, download to a stream, '
+    'S3Client.make_request records the request and hands the harness its on_done / on_progress.  A sequence of 3 '
+    'submissions with SYMBOLIC kinds (upload from path, download to a path, download to a stream, '
     'delete) and SYMBOLIC outcomes (success, error, cancelled by the user, make_request raising, request serialization raising) is '
     'completed in a SYMBOLIC order; the fixed Semaphore(128) is replaced by a counting semaphore of 2 that pumps the '
     'stub event loop when a submitter would block.  Oracle: exactly one release per submission, permits back to the '
